@@ -191,11 +191,55 @@ def code_origin_get_raw(text: str, a: int, b: int) -> bool:
     return CodeOrigin(src, _rng(a, b, 80)).get_raw() == text[a:b]
 
 
+def point_order_free_linecol(a: int, la: int, ca: int, b: int, lb: int, cb: int) -> bool:
+    """
+    pre: a >= 0 and b >= 0 and la >= 1 and lb >= 1 and ca >= 0 and cb >= 0
+    post: _
+    """
+    # ordered by index: line and column are free (two producers may spell the position after a
+    # newline as (3, L1, C3) and (3, L2, C0))
+    p, q = CodePoint(a, la, ca), CodePoint(b, lb, cb)
+    return ((p < q) == (a < b)) and ((p <= q) == (a <= b)) and ((p > q) == (a > b)) and ((p >= q) == (a >= b))
+
+
+def range_relations_free_linecol(a: int, b: int, c: int, d: int, l1: int, l2: int, c1: int, c2: int) -> bool:
+    """
+    pre: 0 <= a <= b and 0 <= c <= d and l1 >= 1 and l2 >= 1 and c1 >= 0 and c2 >= 0
+    post: _
+    """
+    # the two ranges spell their lines / columns independently of each other
+    r1 = CodeRange(CodePoint(a, l1, c1), CodePoint(b, l1 + 1, c1))
+    r2 = CodeRange(CodePoint(c, l2, c2), CodePoint(d, l2 + 2, c2 + 1))
+    if (r2 in r1) != (a <= c and d <= b) or (r1 in r2) != (c <= a and b <= d):
+        return False
+    if r1.overlaps(r2) != (c <= b and a <= d) or r2.overlaps(r1) != (c <= b and a <= d):
+        return False
+    if (r1 < r2) != (b < c) or (r1 <= r2) != (b <= c):
+        return False
+    h = r1 + r2
+    return h.start.index == min(a, c) and h.end.index == max(b, d) and (r1 in h) and (r2 in h)
+
+
+def code_origin_add_free_linecol(a: int, b: int, c: int, d: int, l1: int, l2: int) -> bool:
+    """
+    pre: 0 <= a <= b <= 4 and 0 <= c <= d <= 4 and 1 <= l1 <= 3 and 1 <= l2 <= 3
+    post: _
+    """
+    Source.clear_registry()
+    src = MemoryTextSource(_raw="abcd", source_uri="s")
+    o1 = CodeOrigin(src, CodeRange(CodePoint(a, l1, 0), CodePoint(b, l1, b)))
+    o2 = CodeOrigin(src, CodeRange(CodePoint(c, l2, 1), CodePoint(d, l2 + 1, 0)))
+    r = o1 + o2
+    if c <= b and a <= d:
+        return type(r) is CodeOrigin and r.position.start.index == min(a, c) and r.position.end.index == max(b, d) and r.get_raw() == "abcd"[min(a, c) : max(b, d)]
+    return type(r) is MultiOrigin and r.origins[0] is o1 and r.origins[1] is o2
+
+
 QUICK = [
     "point_valid_accepted", "point_negative_index_rejected", "point_bad_line_or_column_rejected",
     "range_ordered_accepted", "range_reversed_rejected", "point_order", "contains_is_interval_inclusion", "contains_partial_order",
     "overlaps_symmetric_and_touching", "before_relations", "hull_contains_commutes_idempotent", "hull_associative",
-    "code_origin_add_slice", "code_origin_get_raw",
+    "code_origin_add_slice", "code_origin_get_raw", "point_order_free_linecol", "range_relations_free_linecol", "code_origin_add_free_linecol",
 ]
 
 
